@@ -252,14 +252,14 @@ NoGhost == GhostStep({}, {})
 -----------------------------------------------------------------------------
 Init ==
   /\ clock = 0
-  /\ store  = [u \in Unit |-> C0]
-  /\ queueL = [n \in Node |-> {}]
-  /\ queueG = [n \in Node |-> {}]
-  /\ watch  = [u \in Unit |-> W0]
-  /\ pw     = [u \in Unit |-> PW0]
-  /\ gate   = [u \in Unit |-> FALSE]
-  /\ wk     = [u \in Unit |-> WK0]
-  /\ inbox  = [u \in Unit |-> <<>>]
+  /\ store  = TLCEval([u \in Unit |-> C0])
+  /\ queueL = TLCEval([n \in Node |-> {}])
+  /\ queueG = TLCEval([n \in Node |-> {}])
+  /\ watch  = TLCEval([u \in Unit |-> W0])
+  /\ pw     = TLCEval([u \in Unit |-> PW0])
+  /\ gate   = TLCEval([u \in Unit |-> FALSE])
+  /\ wk     = TLCEval([u \in Unit |-> WK0])
+  /\ inbox  = TLCEval([u \in Unit |-> <<>>])
   /\ sent = {}
   /\ cut = {}
   /\ ncas = 0 /\ nfault = 0 /\ ndel = 0
